@@ -628,7 +628,7 @@ func parseDeviceTable(src []byte, offset uint16) (DeviceTable, error) {
 		}
 
 		nbPerUint16 := 16 / (1 << format) // 8, 4 or 2
-		outLength := int(out.EndSize - out.StartSize + 1)
+		outLength := int(out.EndSize) - int(out.StartSize) + 1 // as int: 0xFFFF - 0 + 1 overflows uint16
 		var count int
 		if outLength%nbPerUint16 == 0 {
 			count = outLength / nbPerUint16
